@@ -130,7 +130,22 @@ pub fn run(args: &Args) -> i32 {
     let results: Vec<CaseResult> = if let Some(path) = &args.replay {
         let text = std::fs::read_to_string(path).expect("replay file");
         let case = Case::parse(&text);
-        vec![crate::camp::dispatch_replay(&scratch, meta, &args.campaign, &case)]
+        let res = std::panic::catch_unwind(std::panic::AssertUnwindSafe(|| crate::camp::dispatch_replay(&scratch, meta, &args.campaign, &case)));
+        vec![match res {
+            Ok(r) => r,
+            Err(e) => {
+                let msg = e.downcast_ref::<&str>().map(|s| s.to_string()).or_else(|| e.downcast_ref::<String>().cloned()).unwrap_or_default();
+                CaseResult {
+                    id: case.id.clone(),
+                    annot: String::new(),
+                    out: String::new(),
+                    viol: vec![Violation { prop: "*".into(), what: format!("the harness could not complete the replay of case {}: {}", case.id, msg) }],
+                    stats: Stats::default(),
+                    plain: Case { id: case.id.clone(), ops: vec![(false, Op::Open(Pol::AlwaysFlush))] },
+                    nontrivial: false,
+                }
+            }
+        }]
     } else {
         let next = Mutex::new(0usize);
         let results: Mutex<Vec<(usize, CaseResult)>> = Mutex::new(Vec::new());
